@@ -66,31 +66,23 @@ theorem sub_dropM {L h : LS} (m : Mutex) (hs : Sub L h) : Sub (dropM m L) (dropM
 /-! ### loop invariants -/
 
 theorem loopOk_iff {inv : LS} {r : Res} :
-    loopOk inv r = true ↔ (∀ o, r.out = some o → Sub inv o) ∧ (∀ o, r.cnt = some o → Sub inv o) := by
+    loopOk inv r = true ↔ (∀ o, r.out = some o → Sub inv o) := by
   unfold loopOk
-  rw [Bool.and_eq_true]
   constructor
-  · rintro ⟨h₁, h₂⟩
-    constructor
-    · intro o ho; rw [ho] at h₁; exact subB_iff.1 h₁
-    · intro o ho; rw [ho] at h₂; exact subB_iff.1 h₂
-  · rintro ⟨h₁, h₂⟩
-    constructor
-    · cases ho : r.out with
-      | none => rfl
-      | some o => exact subB_iff.2 (h₁ o ho)
-    · cases ho : r.cnt with
-      | none => rfl
-      | some o => exact subB_iff.2 (h₂ o ho)
+  · intro h₁ o ho; rw [ho] at h₁; exact subB_iff.1 h₁
+  · intro h₁
+    cases ho : r.out with
+    | none => rfl
+    | some o => exact subB_iff.2 (h₁ o ho)
 
 theorem loopOk_nil (r : Res) : loopOk [] r = true :=
-  loopOk_iff.2 ⟨fun o _ => sub_nil o, fun o _ => sub_nil o⟩
+  loopOk_iff.2 (fun o _ => sub_nil o)
 
 theorem inv_sub (f : LS → Res) (L : LS) : Sub (invOfWith f L) L := by
   unfold invOfWith
   simp only
   split
-  · exact Sub.trans (meetL_sub _ _) (meetL_sub _ _)
+  · exact meetL_sub _ _
   · exact sub_nil L
 
 theorem inv_ok (f : LS → Res) (L : LS) : loopOk (invOfWith f L) (f (invOfWith f L)) = true := by
@@ -106,11 +98,38 @@ theorem inv_idem (f : LS → Res) (L : LS) : invOfWith f (invOfWith f L) = invOf
   have h := loopOk_iff.1 hok
   unfold invOfWith
   simp only
-  have e₁ : meetL inv (f inv).out = inv := meetL_eq_self h.1
-  rw [e₁]
-  have e₂ : meetL inv (f inv).cnt = inv := meetL_eq_self h.2
-  rw [e₂, hok]
+  have e₁ : meetL inv (f inv).out = inv := meetL_eq_self h
+  rw [e₁, hok]
   rfl
+
+/-! ### exit lists -/
+
+theorem exitAt_nil (n : Nat) : exitAt [] n = none := by simp [exitAt]
+
+theorem exitAt_meetX (a b : List (Option LS)) (n : Nat) : exitAt (meetX a b) n = meetO (exitAt a n) (exitAt b n) := by
+  induction a generalizing b n with
+  | nil => simp [meetX, exitAt, meetO]
+  | cons x xs ih =>
+    cases b with
+    | nil =>
+      simp only [meetX, exitAt_nil]
+      cases exitAt (x :: xs) n <;> rfl
+    | cons y ys =>
+      cases n with
+      | zero => simp [meetX, exitAt]
+      | succ n =>
+        have := ih ys n
+        simpa [meetX, exitAt] using this
+
+theorem exitAt_jump (n : Nat) (L : LS) : exitAt (List.replicate n none ++ [some L]) n = some L := by
+  induction n with
+  | zero => simp [exitAt]
+  | succ n ih => simpa [exitAt, List.replicate_succ] using ih
+
+theorem exitAt_drop1 (l : List (Option LS)) (n : Nat) : exitAt (l.drop 1) n = exitAt l (n + 1) := by
+  cases l with
+  | nil => simp [exitAt]
+  | cons x xs => simp [exitAt]
 
 theorem an_loop_idem (relOf : Nat → List Mutex) (a : Cmd) (L : LS) :
     an relOf (.loop a) (invOfWith (an relOf a) L) = an relOf (.loop a) L := by
@@ -134,6 +153,7 @@ theorem dfrs_sub_relSet (relOf : Nat → List Mutex) (c : Cmd) : ∀ m, m ∈ df
     simp only [dfrs, relSet, List.mem_append] at hx ⊢
     exact hx.imp (iha x) (ihb x)
   | loop a iha => intro x hx; simp only [dfrs, relSet] at hx ⊢; exact iha x hx
+  | block a iha => intro x hx; simp only [dfrs, relSet] at hx ⊢; exact iha x hx
   | _ => intro x hx; simp [dfrs] at hx
 
 theorem run_keeps {env : List Cmd} {relOf : Nat → List Mutex} (hrel : RelOk env relOf)
@@ -150,8 +170,11 @@ theorem run_keeps {env : List Cmd} {relOf : Nat → List Mutex} (hrel : RelOk en
   | dfr => intro x hx _; exact hx
   | acc => intro x hx _; exact hx
   | ret => intro x hx _; exact hx
-  | brk => intro x hx _; exact hx
-  | cnt => intro x hx _; exact hx
+  | jump => intro x hx _; exact hx
+  | blockN _ ih => intro x hx hn; exact ih x hx (by simpa [relSet] using hn)
+  | blockR _ ih => intro x hx hn; exact ih x hx (by simpa [relSet] using hn)
+  | block0 _ ih => intro x hx hn; exact ih x hx (by simpa [relSet] using hn)
+  | blockS _ ih => intro x hx hn; exact ih x hx (by simpa [relSet] using hn)
   | seqN _ _ ih₁ ih₂ =>
     intro x hx hn
     simp only [relSet, List.mem_append, not_or] at hn
@@ -169,12 +192,11 @@ theorem run_keeps {env : List Cmd} {relOf : Nat → List Mutex} (hrel : RelOk en
     simp only [relSet, List.mem_append, not_or] at hn
     exact ih x hx hn.2
   | loop0 => intro x hx _; exact hx
-  | @loopS a h o₁ h₁ o₂ h₂ t t₁ _ _ _ ih₁ ih₂ =>
+  | @loopS a h o₁ h₁ o₂ h₂ t _ _ ih₁ ih₂ =>
     intro x hx hn
     have hn' : x.m ∉ relSet relOf a := by simpa [relSet] using hn
     exact ih₂ x (ih₁ x hx hn') hn
-  | loopB _ ih => intro x hx hn; exact ih x hx (by simpa [relSet] using hn)
-  | loopR _ ih => intro x hx hn; exact ih x hx (by simpa [relSet] using hn)
+  | loopX _ _ ih => intro x hx hn; exact ih x hx (by simpa [relSet] using hn)
   | spawn _ _ => intro x hx _; exact hx
   | @call f body h o h₁ t hb _ ih =>
     intro x hx hn
@@ -205,8 +227,7 @@ def OutOk (t : Out) (r : Res) (h' : LS) : Prop :=
   match t with
   | .normal => ∃ L₁, r.out = some L₁ ∧ Sub L₁ h'
   | .returned => True
-  | .broke => ∃ L₁, r.brk = some L₁ ∧ Sub L₁ h'
-  | .continued => ∃ L₁, r.cnt = some L₁ ∧ Sub L₁ h'
+  | .exit n => ∃ L₁, exitAt r.exits n = some L₁ ∧ Sub L₁ h'
 
 theorem just_mono {env relOf entry} {rows rows' : List (Nat × LS)} (hsub : ∀ x, x ∈ rows → x ∈ rows') {k hk}
     (h : Just env relOf entry rows k hk) : Just env relOf entry rows' k hk := by
@@ -239,8 +260,30 @@ theorem an_sound {env : List Cmd} {relOf : Nat → List Mutex} {entry : Nat → 
     cases this
     exact ⟨L, Or.inl (by simp [an]), hs⟩
   | ret => intro L _ _; exact ⟨(fun _ _ hm => absurd hm List.not_mem_nil), trivial⟩
-  | brk => intro L hs _; exact ⟨(fun _ _ hm => absurd hm List.not_mem_nil), ⟨L, by simp [an], hs⟩⟩
-  | cnt => intro L hs _; exact ⟨(fun _ _ hm => absurd hm List.not_mem_nil), ⟨L, by simp [an], hs⟩⟩
+  | @jump n h =>
+    intro L hs _
+    exact ⟨(fun _ _ hm => absurd hm List.not_mem_nil), ⟨L, by simp [an, exitAt_jump], hs⟩⟩
+  | @blockN a h o h' _ ih =>
+    intro L hs hc
+    obtain ⟨hj, L₁, e, s₁⟩ := ih L hs (by simpa [an] using hc)
+    refine ⟨fun k hk hm => just_mono (fun x hx => by simpa [an] using hx) (hj k hk hm), ?_⟩
+    obtain ⟨c, ec, sc⟩ := meetO_left (y := exitAt (an relOf a L).exits 0) e
+    exact ⟨c, by simp [an, ec], Sub.trans sc s₁⟩
+  | @blockR a h o h' _ ih =>
+    intro L hs hc
+    obtain ⟨hj, _⟩ := ih L hs (by simpa [an] using hc)
+    exact ⟨fun k hk hm => just_mono (fun x hx => by simpa [an] using hx) (hj k hk hm), trivial⟩
+  | @block0 a h o h' _ ih =>
+    intro L hs hc
+    obtain ⟨hj, L₁, e, s₁⟩ := ih L hs (by simpa [an] using hc)
+    refine ⟨fun k hk hm => just_mono (fun x hx => by simpa [an] using hx) (hj k hk hm), ?_⟩
+    obtain ⟨c, ec, sc⟩ := meetO_right (x := (an relOf a L).out) e
+    exact ⟨c, by simp [an, ec], Sub.trans sc s₁⟩
+  | @blockS a h o h' n _ ih =>
+    intro L hs hc
+    obtain ⟨hj, L₁, e, s₁⟩ := ih L hs (by simpa [an] using hc)
+    refine ⟨fun k hk hm => just_mono (fun x hx => by simpa [an] using hx) (hj k hk hm), ?_⟩
+    exact ⟨L₁, by simp only [an]; rw [exitAt_drop1]; exact e, s₁⟩
   | @seqN a b h o₁ h₁ o₂ h₂ t _ _ ih₁ ih₂ =>
     intro L hs hc
     cases hra : (an relOf a L).out with
@@ -261,14 +304,10 @@ theorem an_sound {env : List Cmd} {relOf : Nat → List Mutex} {entry : Nat → 
       · cases t with
         | normal => obtain ⟨L₂, e, s₂⟩ := ho₂; exact ⟨L₂, by simp [an, hra, e], s₂⟩
         | returned => trivial
-        | broke =>
+        | exit n =>
           obtain ⟨L₂, e, s₂⟩ := ho₂
-          obtain ⟨c, ec, sc⟩ := meetO_right (x := (an relOf a L).brk) e
-          exact ⟨c, by simp [an, hra, ec], Sub.trans sc s₂⟩
-        | continued =>
-          obtain ⟨L₂, e, s₂⟩ := ho₂
-          obtain ⟨c, ec, sc⟩ := meetO_right (x := (an relOf a L).cnt) e
-          exact ⟨c, by simp [an, hra, ec], Sub.trans sc s₂⟩
+          obtain ⟨c, ec, sc⟩ := meetO_right (x := exitAt (an relOf a L).exits n) e
+          exact ⟨c, by simp only [an, hra]; rw [exitAt_meetX]; exact ec, Sub.trans sc s₂⟩
   | @seqX a b h o₁ h₁ t _ hne ih =>
     intro L hs hc
     cases hra : (an relOf a L).out with
@@ -279,8 +318,7 @@ theorem an_sound {env : List Cmd} {relOf : Nat → List Mutex} {entry : Nat → 
       cases t with
       | normal => exact absurd rfl hne
       | returned => trivial
-      | broke => obtain ⟨L₂, e, s₂⟩ := ho; exact ⟨L₂, by simp [an, hra, e], s₂⟩
-      | continued => obtain ⟨L₂, e, s₂⟩ := ho; exact ⟨L₂, by simp [an, hra, e], s₂⟩
+      | exit n => obtain ⟨L₂, e, s₂⟩ := ho; exact ⟨L₂, by simp [an, hra, e], s₂⟩
     | some L₁ =>
       have hcs : CallsOk entry ((an relOf a L).calls ++ (an relOf b L₁).calls) := by simpa [an, hra] using hc
       obtain ⟨hj, ho⟩ := ih L hs (callsOk_left hcs)
@@ -288,14 +326,10 @@ theorem an_sound {env : List Cmd} {relOf : Nat → List Mutex} {entry : Nat → 
       cases t with
       | normal => exact absurd rfl hne
       | returned => trivial
-      | broke =>
+      | exit n =>
         obtain ⟨L₂, e, s₂⟩ := ho
-        obtain ⟨c, ec, sc⟩ := meetO_left (y := (an relOf b L₁).brk) e
-        exact ⟨c, by simp [an, hra, ec], Sub.trans sc s₂⟩
-      | continued =>
-        obtain ⟨L₂, e, s₂⟩ := ho
-        obtain ⟨c, ec, sc⟩ := meetO_left (y := (an relOf b L₁).cnt) e
-        exact ⟨c, by simp [an, hra, ec], Sub.trans sc s₂⟩
+        obtain ⟨c, ec, sc⟩ := meetO_left (y := exitAt (an relOf b L₁).exits n) e
+        exact ⟨c, by simp only [an, hra]; rw [exitAt_meetX]; exact ec, Sub.trans sc s₂⟩
   | @altL a b h o h' t _ ih =>
     intro L hs hc
     have hcs : CallsOk entry ((an relOf a L).calls ++ (an relOf b L).calls) := by simpa [an] using hc
@@ -307,14 +341,10 @@ theorem an_sound {env : List Cmd} {relOf : Nat → List Mutex} {entry : Nat → 
       obtain ⟨c, ec, sc⟩ := meetO_left (y := (an relOf b L).out) e
       exact ⟨c, by simp [an, ec], Sub.trans sc s₂⟩
     | returned => trivial
-    | broke =>
+    | exit n =>
       obtain ⟨L₂, e, s₂⟩ := ho
-      obtain ⟨c, ec, sc⟩ := meetO_left (y := (an relOf b L).brk) e
-      exact ⟨c, by simp [an, ec], Sub.trans sc s₂⟩
-    | continued =>
-      obtain ⟨L₂, e, s₂⟩ := ho
-      obtain ⟨c, ec, sc⟩ := meetO_left (y := (an relOf b L).cnt) e
-      exact ⟨c, by simp [an, ec], Sub.trans sc s₂⟩
+      obtain ⟨c, ec, sc⟩ := meetO_left (y := exitAt (an relOf b L).exits n) e
+      exact ⟨c, by simp only [an]; rw [exitAt_meetX]; exact ec, Sub.trans sc s₂⟩
   | @altR a b h o h' t _ ih =>
     intro L hs hc
     have hcs : CallsOk entry ((an relOf a L).calls ++ (an relOf b L).calls) := by simpa [an] using hc
@@ -326,30 +356,21 @@ theorem an_sound {env : List Cmd} {relOf : Nat → List Mutex} {entry : Nat → 
       obtain ⟨c, ec, sc⟩ := meetO_right (x := (an relOf a L).out) e
       exact ⟨c, by simp [an, ec], Sub.trans sc s₂⟩
     | returned => trivial
-    | broke =>
+    | exit n =>
       obtain ⟨L₂, e, s₂⟩ := ho
-      obtain ⟨c, ec, sc⟩ := meetO_right (x := (an relOf a L).brk) e
-      exact ⟨c, by simp [an, ec], Sub.trans sc s₂⟩
-    | continued =>
-      obtain ⟨L₂, e, s₂⟩ := ho
-      obtain ⟨c, ec, sc⟩ := meetO_right (x := (an relOf a L).cnt) e
-      exact ⟨c, by simp [an, ec], Sub.trans sc s₂⟩
+      obtain ⟨c, ec, sc⟩ := meetO_right (x := exitAt (an relOf a L).exits n) e
+      exact ⟨c, by simp only [an]; rw [exitAt_meetX]; exact ec, Sub.trans sc s₂⟩
   | @loop0 a h =>
     intro L hs _
-    refine ⟨(fun _ _ hm => absurd hm List.not_mem_nil), ?_⟩
-    obtain ⟨c, ec, sc⟩ := meetO_left (x := some (invOfWith (an relOf a) L)) (y := (an relOf a (invOfWith (an relOf a) L)).brk) rfl
-    exact ⟨c, by simp [an, ec], Sub.trans sc (Sub.trans (inv_sub _ _) hs)⟩
-  | @loopS a h o₁ h₁ o₂ h₂ t t₁ _ ht _ ih₁ ih₂ =>
+    exact ⟨(fun _ _ hm => absurd hm List.not_mem_nil), ⟨invOfWith (an relOf a) L, by simp [an], Sub.trans (inv_sub _ _) hs⟩⟩
+  | @loopS a h o₁ h₁ o₂ h₂ t _ _ ih₁ ih₂ =>
     intro L hs hc
     -- the body runs from the invariant, the rest of the loop again from the invariant
     have hinv := inv_sub (an relOf a) L
     have hok := loopOk_iff.1 (inv_ok (an relOf a) L)
     have hcb : CallsOk entry (an relOf a (invOfWith (an relOf a) L)).calls := by simpa [an] using hc
-    obtain ⟨hj₁, ho₁⟩ := ih₁ (invOfWith (an relOf a) L) (Sub.trans hinv hs) hcb
-    have hs₁ : Sub (invOfWith (an relOf a) L) h₁ := by
-      rcases ht with rfl | rfl
-      · obtain ⟨L₁, e, s₁⟩ := ho₁; exact Sub.trans (hok.1 L₁ e) s₁
-      · obtain ⟨L₁, e, s₁⟩ := ho₁; exact Sub.trans (hok.2 L₁ e) s₁
+    obtain ⟨hj₁, L₁, e, s₁⟩ := ih₁ (invOfWith (an relOf a) L) (Sub.trans hinv hs) hcb
+    have hs₁ : Sub (invOfWith (an relOf a) L) h₁ := Sub.trans (hok L₁ e) s₁
     have hc₂ : CallsOk entry (an relOf (.loop a) (invOfWith (an relOf a) L)).calls := by
       rw [an_loop_idem]; exact hc
     obtain ⟨hj₂, ho₂⟩ := ih₂ (invOfWith (an relOf a) L) hs₁ hc₂
@@ -360,20 +381,16 @@ theorem an_sound {env : List Cmd} {relOf : Nat → List Mutex} {entry : Nat → 
       · exact just_mono (fun x hx => by simpa [an] using hx) (hj₁ k hk hm)
       · exact hj₂ k hk hm
     · exact ho₂
-  | @loopB a h o₁ h₁ _ ih =>
+  | @loopX a h o₁ h₁ t _ hne ih =>
     intro L hs hc
     have hinv := inv_sub (an relOf a) L
     have hcb : CallsOk entry (an relOf a (invOfWith (an relOf a) L)).calls := by simpa [an] using hc
-    obtain ⟨hj, L₁, e, s₁⟩ := ih (invOfWith (an relOf a) L) (Sub.trans hinv hs) hcb
+    obtain ⟨hj, ho⟩ := ih (invOfWith (an relOf a) L) (Sub.trans hinv hs) hcb
     refine ⟨fun k hk hm => just_mono (fun x hx => by simpa [an] using hx) (hj k hk hm), ?_⟩
-    obtain ⟨c, ec, sc⟩ := meetO_right (x := some (invOfWith (an relOf a) L)) e
-    exact ⟨c, by simp [an, ec], Sub.trans sc s₁⟩
-  | @loopR a h o₁ h₁ _ ih =>
-    intro L hs hc
-    have hinv := inv_sub (an relOf a) L
-    have hcb : CallsOk entry (an relOf a (invOfWith (an relOf a) L)).calls := by simpa [an] using hc
-    obtain ⟨hj, _⟩ := ih (invOfWith (an relOf a) L) (Sub.trans hinv hs) hcb
-    exact ⟨fun k hk hm => just_mono (fun x hx => by simpa [an] using hx) (hj k hk hm), trivial⟩
+    cases t with
+    | normal => exact absurd rfl hne
+    | returned => trivial
+    | exit n => obtain ⟨L₂, e, s₂⟩ := ho; exact ⟨L₂, by simpa [an] using e, s₂⟩
   | @spawn a h o h' t _ ih =>
     intro L hs hc
     have hcb : CallsOk entry (an relOf a []).calls := by simpa [an] using hc
@@ -399,5 +416,70 @@ theorem an_sound {env : List Cmd} {relOf : Nat → List Mutex} {entry : Nat → 
       refine List.mem_filter.2 ⟨hx₁, ?_⟩
       have : x.m ∉ dfrs body := fun hm => hnb (dfrs_sub_relSet relOf body x.m hm)
       simpa using this
+
+/-! ### the evaluated conditions imply the hypotheses -/
+
+theorem relOk_of_B {env : List Cmd} {rel : List (List Mutex)} (h : relOkB env rel = true) : RelOk env (getL rel) := by
+  intro f body hb m hm
+  unfold relOkB at h
+  rw [List.all_eq_true] at h
+  have hlt : f < env.length := (List.getElem?_eq_some_iff.1 hb).1
+  have := h f (List.mem_range.2 hlt)
+  rw [hb] at this
+  simp only [List.all_eq_true] at this
+  exact List.contains_iff_mem.1 (this m hm)
+
+theorem entryOk_of_B {env : List Cmd} {rel : List (List Mutex)} {entry : List LS}
+    (h : entryOkB env rel entry = true) : EntryOk env (getL rel) (getLS entry) := by
+  intro g body hb f Ls hm
+  unfold entryOkB at h
+  rw [List.all_eq_true] at h
+  have hlt : g < env.length := (List.getElem?_eq_some_iff.1 hb).1
+  have := h g (List.mem_range.2 hlt)
+  rw [hb] at this
+  simp only [List.all_eq_true] at this
+  exact subB_iff.1 (this (f, Ls) hm)
+
+theorem inAll_allRows {env : List Cmd} {rel : List (List Mutex)} {entry : List LS} {k : Nat} {L : LS}
+    (h : InAll env (getL rel) (getLS entry) k L) : (k, L) ∈ allRows env rel entry := by
+  obtain ⟨g, body, hb, hm⟩ := h
+  unfold allRows
+  rw [List.mem_flatMap]
+  have hlt : g < env.length := (List.getElem?_eq_some_iff.1 hb).1
+  exact ⟨g, List.mem_range.2 hlt, by rw [hb]; exact hm⟩
+
+/-- **Whole-program soundness**: if the evaluated conditions hold, then on every run of every function body that
+    starts with at least its entry lockset held, each access (in the body, in callees, in spawned closures) is
+    covered by a row of `allRows` whose lockset is held at that moment. -/
+theorem prog_sound {env : List Cmd} {rel : List (List Mutex)} {entry : List LS}
+    (hrel : relOkB env rel = true) (hent : entryOkB env rel entry = true)
+    {g : Nat} {body : Cmd} (hb : env[g]? = some body) {h h' : LS} {obs : List (Nat × LS)} {t : Out}
+    (hs : Sub (getLS entry g) h) (hrun : Run env body h obs h' t) :
+    ∀ k hk, (k, hk) ∈ obs → ∃ L, (k, L) ∈ allRows env rel entry ∧ Sub L hk := by
+  intro k hk hm
+  have hE := entryOk_of_B hent
+  obtain ⟨hj, _⟩ := an_sound (relOk_of_B hrel) hE hrun (getLS entry g) hs (hE g body hb)
+  obtain ⟨L, hL, hsub⟩ := hj k hk hm
+  refine ⟨L, ?_, hsub⟩
+  rcases hL with hrow | hall
+  · exact inAll_allRows ⟨g, body, hb, hrow⟩
+  · exact inAll_allRows hall
+
+/-- a justified table row: whenever the analysis' row for its site is held, its real locks are held -/
+theorem justified_held {rows : List (Nat × LS)} {tokens : List Mutex} {a : Access}
+    (hj : justifiedB rows tokens a = true) {L hk : LS} (hrow : (a.site, L) ∈ rows) (hs : Sub L hk) :
+    Sub (realLocks tokens a) hk := by
+  unfold justifiedB at hj
+  rw [Bool.or_eq_true] at hj
+  rcases hj with he | hrest
+  · intro x hx
+    have : realLocks tokens a = [] := by simpa using he
+    rw [this] at hx; cases hx
+  · rw [Bool.and_eq_true] at hrest
+    have hall := hrest.2
+    rw [List.all_eq_true] at hall
+    have := hall (a.site, L) hrow
+    have hsb : subB (realLocks tokens a) L = true := by simpa using this
+    exact Sub.trans (subB_iff.1 hsb) hs
 
 end KV.LockProg
